@@ -578,7 +578,10 @@ def make_model(truth):
             return np.log(self.in_bounds(x), dtype="float") - 2 * np.log(10)
 
         def log_likelihood(self, x):
-            return -0.5 * (x["x"] ** 2 + x["y"] ** 2)
+            # computed in float64 whatever the precision of the live points (with float32 live points the stored logL — a
+            # float64 field — then holds values no float32 can)
+            a, b = np.asarray(x["x"], dtype=np.float64), np.asarray(x["y"], dtype=np.float64)
+            return -0.5 * (a ** 2 + b ** 2) / 1.1
 
         def to_unit_hypercube(self, x):
             y = x.copy()
@@ -843,9 +846,24 @@ def real_streams(ctx, run):
     plan = [(False, "hdf5", True), (True, "json", False), (False, "json", False), (True, "h5", True)]
     if not ctx.quick:
         plan += [(False, "h5", False), (True, "hdf5", False)] * 3
+    # one standard run with the documented non-default live-point precision (default_float_dtype = float32; logL stays
+    # float64): what is held in memory must come back from the JSON file field by field (seeded change C19-hB converted every
+    # float field of the posterior samples with the default dtype)
+    plan += [(False, "json", "f4")]
     for ins, ext, truth in plan:
         seed = ctx.rng.randrange(1, 2 ** 31)
         try:
+            if truth == "f4":
+                from nessai import config as nconfig
+                old_dt = nconfig.livepoints.default_float_dtype
+                nconfig.livepoints.default_float_dtype = "f4"
+                nconfig.livepoints.reset_properties()
+                try:
+                    check_real(run, ins, seed, ext, False)
+                finally:
+                    nconfig.livepoints.default_float_dtype = old_dt
+                    nconfig.livepoints.reset_properties()
+                continue
             check_real(run, ins, seed, ext, truth)
         except Exception as e:  # noqa: a real run (or building / saving its results) that raises is a finding, not a harness problem
             import traceback
